@@ -752,7 +752,6 @@ verus! {
         let ghost f_in = formula@;
         let ghost st_in = stack@;
         proof {
-            lemma_byte_masks();
             lemma_cidx(f_in, f_in.len() as int);
             assert(f_in.take(f_in.len() as int) =~= f_in);
             if st_in.len() > 0 { lemma_sb_at(f_in, st_in, st_in.len() - 1); }
@@ -805,15 +804,19 @@ verus! {
                             forall|i: int| 0 <= i < args@.len() ==> is_bnd(fa, #[trigger] args@[i] as int),
                             forall|i: int, j: int| 0 <= i <= j < args@.len() ==> args@[i] <= args@[j],
                             fargs@ == fa,
-                            formula@.len() > k0 && formula@.take(k0) == f_in.take(k0),
+                            formula@.len() > k0 && formula@.take(k0) =~= f_in.take(k0),
                         decreases win_rem(__it2).len(),
 //@@ before /formula\.push_str\(&fargs\[/
+                        broadcast use axiom_str_index_range, axiom_string_index_req_range;
+                        let ghost f_w = formula@;
                         proof {
                             assert(w@ == all_windows(args@, 2)[wi]);
                             assert(w@ =~= args@.subrange(wi, wi + 2));
                             assert(w@[0] == args@[wi] && w@[1] == args@[wi + 1]);
                             wi = wi + 1;
                         }
+//@@ after /formula\.push\(','\);/
+                        proof { assert(formula@.take(k0) =~= f_w.take(k0)); }
 //@@ after /formula\.pop\(\);\s*formula\.push\('\)'\);/
                     proof {
                         let j = st_in.len() - argc;
